@@ -15,6 +15,7 @@ import (
 
 	"verif/harness/pooltrack"
 	"verif/harness/rawframe"
+	"verif/harness/refhpack"
 )
 
 // C16 — wire parsers are total.
@@ -448,9 +449,73 @@ func c16HRun(c c16HCase) (o Outcome) {
 	return Outcome{NonTrivial: steps > 0, Classes: []string{"hpack-ok"}}
 }
 
+// c16HStructGen builds header-block octets from well-formed pieces whose
+// prefixed integers (indices, string lengths, table sizes) take hostile
+// values: boundaries of 7/14/21/31/32/63/64 bits, non-minimal encodings, and
+// one continuation octet too many.
+func c16HStructGen(t *rapid.T) c16HCase {
+	hostile := []uint64{0, 1, 61, 62, 126, 127, 128, 254, 255, 256, 16383, 16384, 1<<21 - 1, 1 << 21, 1<<31 - 1, 1 << 31, 1<<32 - 1, 1 << 32, 1<<62 + 5, 1<<63 - 1, 1 << 63, 1<<63 + 127, 1<<64 - 1}
+	num := func(label string, actual uint64) uint64 {
+		switch rapid.IntRange(0, 3).Draw(t, label+"-kind") {
+		case 0:
+			return actual
+		case 1:
+			return actual + uint64(rapid.IntRange(-2, 2).Draw(t, label+"-delta"))
+		default:
+			return rapid.SampledFrom(hostile).Draw(t, label+"-hostile")
+		}
+	}
+	integer := func(dst []byte, label string, prefix uint8, first byte, v uint64) []byte {
+		dst = refhpack.AppendInt(dst, prefix, first, v, rapid.SampledFrom([]int{0, 0, 0, 1, 3, 9}).Draw(t, label+"-pad"))
+		if rapid.IntRange(0, 9).Draw(t, label+"-over") == 0 {
+			// turn the last octet into a continuation and add more: 10 or 11 groups in all
+			dst[len(dst)-1] |= 0x80
+			for i := rapid.IntRange(1, 11).Draw(t, label+"-groups"); i > 1; i-- {
+				dst = append(dst, 0x80|byte(rapid.IntRange(0, 127).Draw(t, label+"-g")))
+			}
+			dst = append(dst, byte(rapid.IntRange(0, 127).Draw(t, label+"-last")))
+		}
+		return dst
+	}
+	str := func(dst []byte, label string) []byte {
+		body := []byte(rapid.StringMatching("[a-z0-9-]{0,12}").Draw(t, label))
+		var first byte
+		if rapid.Bool().Draw(t, label+"-huff") {
+			first = 0x80
+			body = refhpack.HuffEncode(body)
+		}
+		dst = integer(dst, label+"-len", 7, first, num(label+"-len", uint64(len(body))))
+		return append(dst, body...)
+	}
+	var b []byte
+	for n := rapid.IntRange(1, 5).Draw(t, "pieces"); n > 0; n-- {
+		switch rapid.IntRange(0, 5).Draw(t, "piece") {
+		case 0: // indexed field
+			b = integer(b, "idx", 7, 0x80, num("idx", uint64(rapid.IntRange(1, 70).Draw(t, "idxv"))))
+		case 1, 2, 3: // literal: incremental / without indexing / never indexed
+			form := rapid.SampledFrom([][2]byte{{0x40, 6}, {0x00, 4}, {0x10, 4}}).Draw(t, "form")
+			if rapid.Bool().Draw(t, "named") {
+				b = integer(b, "nameidx", form[1], form[0], num("nameidx", uint64(rapid.IntRange(1, 70).Draw(t, "nameidxv"))))
+			} else {
+				b = append(b, form[0])
+				b = str(b, "name")
+			}
+			b = str(b, "value")
+		case 4: // dynamic table size update
+			b = integer(b, "size", 5, 0x20, num("size", uint64(rapid.IntRange(0, 4096).Draw(t, "sizev"))))
+		default:
+			b = append(b, rapid.SliceOfN(rapid.Byte(), 1, 6).Draw(t, "raw")...)
+		}
+	}
+	if len(b) > 600 {
+		b = b[:600]
+	}
+	return c16HCase{Hex: hex.EncodeToString(b)}
+}
+
 func TestC16(t *testing.T) {
 	s := newSuite(t, "C16",
-		"frames: streams of 1..4 frames, each either well-formed (C05 layouts, all types/flags/padding) or broken in a chosen way (fixed-size types with wrong sizes, padding >= payload, priority section cut, unknown types, lying lengths, raw octets), optionally cut at any offset, read with ReadFrameFrom / ReadFrameFromWithSize(100|16384|17000|2^24-1) until the first failure; oracle per frame = in-harness RFC 7540 section 6 structure validator (must fail when impossible, truncated or over the limit; must succeed otherwise unless a SETTINGS value is invalid), x/net's reading for the fields, exact consumption (the following frame is judged at 9+length), ErrUnknownFrameType with the reader at the next frame, pool tracker (no double release; fresh acquisitions pairwise distinct), TotalAlloc delta for over-limit lengths. HPACK: arbitrary octets through HPACK.Next, each step consumes or fails, output bounded. Non-trivial = at least one frame parsed, a truncation inside a frame, an unknown type or a structurally impossible frame; distinct by case hash.",
+		"frames: streams of 1..4 frames, each either well-formed (C05 layouts, all types/flags/padding) or broken in a chosen way (fixed-size types with wrong sizes, padding >= payload, priority section cut, unknown types, lying lengths, raw octets), optionally cut at any offset, read with ReadFrameFrom / ReadFrameFromWithSize(100|16384|17000|2^24-1) until the first failure; oracle per frame = in-harness RFC 7540 section 6 structure validator (must fail when impossible, truncated or over the limit; must succeed otherwise unless a SETTINGS value is invalid), x/net's reading for the fields, exact consumption (the following frame is judged at 9+length), ErrUnknownFrameType with the reader at the next frame, pool tracker (no double release; fresh acquisitions pairwise distinct), TotalAlloc delta for over-limit lengths. HPACK: arbitrary octets, and blocks built from well-formed pieces whose prefixed integers (indices, string lengths, table sizes) take boundary values up to 2^64-1, non-minimal encodings and over-long continuations, through HPACK.Next: each step consumes or fails (never panics), output bounded. Non-trivial = at least one frame parsed, a truncation inside a frame, an unknown type or a structurally impossible frame; distinct by case hash.",
 		"ReadFrameFromWithSize limits below 16384 are used so that over-limit frames stay small; 0 means 'no limit' by the function's own convention and is not passed")
 	defer s.finish()
 
@@ -464,6 +529,7 @@ func TestC16(t *testing.T) {
 		b := rapid.SliceOfN(rapid.OneOf(rapid.Byte(), rapid.SampledFrom([]byte{0x00, 0x40, 0x10, 0x20, 0x3f, 0x7f, 0x80, 0x82, 0xbe, 0xff, 0x0f, 0x1f, 0x01, 0x04, 0x8a})), 0, 64).Draw(t, "b")
 		return c16HCase{Hex: hex.EncodeToString(b)}
 	}, Run: c16HRun})
+	runLane(s, Lane[c16HCase]{Name: "hpack-ints", Quick: 40000, Thor: 4000000, Gen: c16HStructGen, Run: c16HRun})
 }
 
 func FuzzC16Frame(f *testing.F) {
@@ -488,7 +554,7 @@ func FuzzC16Frame(f *testing.F) {
 }
 
 func FuzzC16HPACK(f *testing.F) {
-	for _, s := range []string{"", "82", "418cf1e3c2e5f23a6ba0ab90f4ff", "0004616263640131", "3fe11f", "ff80808080808080808001", "7f", "0f", "1f00"} {
+	for _, s := range []string{"", "82", "418cf1e3c2e5f23a6ba0ab90f4ff", "0004616263640131", "3fe11f", "ff80808080808080808001", "7f", "0f", "1f00", "007f80808080808080808001", "00017800ff808080808080808001", "40ff808080808080808001", "00817fffffffffffffffff7f"} {
 		b, _ := hex.DecodeString(s)
 		f.Add(b)
 	}
